@@ -1,0 +1,207 @@
+//go:build verif
+
+// Contracts for package linkedhashset (comment-only; read by /verif/engine, never compiled into the package).
+
+package linkedhashset
+
+//@ -- ghost: the position of every member in the ordering list
+//@ ghost field Set.rank mapfrom table int
+
+//@ -- abstract view: the duplicate-free member sequence K (insertion order); Mem = membership
+//@ pred K(s) := doublylinkedlist.Seq(s.ordering)
+//@ pred N(s) := s.ordering.size
+//@ pred Mem(s, x) := has(s.table, x)
+//@ pred Inv(s) := s != nil && s.table != nil && s.ordering != nil && doublylinkedlist.Inv(s.ordering) && len(s.table) == s.ordering.size
+//@     && (forall i :: 0 <= i && i < N(s) ==> has(s.table, K(s)[i]) && s.rank[K(s)[i]] == i)
+//@     && (forall k like keyof(s.table) :: has(s.table, k) ==> 0 <= s.rank[k] && s.rank[k] < N(s) && K(s)[s.rank[k]] == k)
+
+//@ func New
+//@   modifies nothing
+//@   ensures [C04 C09 C13 C15 C17] fresh(result) && Inv(result) && fresh(result.table) && fresh(result.ordering)
+//@   ensures [C04] forall x like elemof(values) :: Mem(result, x) <==> x in seq(values)
+//@   ensures [C04 C15] len(values) == 0 ==> N(result) == 0
+
+//@ func Set.Add
+//@   requires Inv(set)
+//@   modifies map(set.table), set.rank, set.ordering.first, set.ordering.last, set.ordering.size, set.ordering.nodes
+//@   modifies each e like set.ordering.first where e.owner == set.ordering : e.next
+//@   at after Append#1: set.rank[arg1[0]] := set.ordering.size - 1
+//@   ensures [C04 C09 C17] Inv(set) && set.table == old(set.table) && set.ordering == old(set.ordering)
+//@   ensures [C04] members: forall x like elemof(items) :: Mem(set, x) <==> old(Mem(set, x)) || x in seq(items)
+//@   ensures [C09] kept: forall i :: 0 <= i && i < old(N(set)) ==> K(set)[i] == old(K(set))[i]
+//@   ensures [C04 C09] N(set) >= old(N(set)) && N(set) <= old(N(set)) + len(items) && (len(items) == 0 ==> N(set) == old(N(set)))
+//@   ensures [C09] single: len(items) == 1 ==> (old(Mem(set, items[0])) ==> K(set) == old(K(set))) && (!old(Mem(set, items[0])) ==> K(set) == old(K(set)) ++ [items[0]])
+//@   loop 1:
+//@     invariant Inv(set) && set.table == old(set.table) && set.ordering == old(set.ordering) && 0 - 1 <= rangeindex && rangeindex < len(items)
+//@     invariant forall x like elemof(items) :: Mem(set, x) <==> old(Mem(set, x)) || (exists j :: 0 <= j && j <= rangeindex && items[j] == x)
+//@     invariant forall i :: 0 <= i && i < old(N(set)) ==> K(set)[i] == old(K(set))[i]
+//@     invariant N(set) >= old(N(set)) && N(set) <= old(N(set)) + rangeindex + 1
+//@     invariant len(items) == 1 && rangeindex == 0 ==> (old(Mem(set, items[0])) ==> K(set) == old(K(set))) && (!old(Mem(set, items[0])) ==> K(set) == old(K(set)) ++ [items[0]])
+//@     decreases len(items) - rangeindex
+
+//@ func Set.Remove
+//@   requires Inv(set)
+//@   modifies map(set.table), set.rank, set.ordering.first, set.ordering.last, set.ordering.size, set.ordering.nodes
+//@   modifies each e like set.ordering.first where e.owner == set.ordering : e.next, e.prev, e.idx
+//@   at after Remove#1: set.rank := \k like keyof(set.table) => ite(set.rank[k] > arg1, set.rank[k] - 1, set.rank[k])
+//@   ensures [C04 C09 C17] Inv(set) && set.table == old(set.table) && set.ordering == old(set.ordering)
+//@   ensures [C04] members: forall x like elemof(items) :: Mem(set, x) <==> old(Mem(set, x)) && !(x in seq(items))
+//@   ensures [C04 C09] N(set) <= old(N(set)) && N(set) >= old(N(set)) - len(items)
+//@   ensures [C09] single: len(items) == 1 ==> (!old(Mem(set, items[0])) ==> K(set) == old(K(set)))
+//@     && (old(Mem(set, items[0])) ==> K(set) == old(K(set))[:old(set.rank[items[0]])] ++ old(K(set))[old(set.rank[items[0]])+1:])
+//@   loop 1:
+//@     invariant Inv(set) && set.table == old(set.table) && set.ordering == old(set.ordering) && 0 - 1 <= rangeindex && rangeindex < len(items)
+//@     invariant forall x like elemof(items) :: Mem(set, x) <==> old(Mem(set, x)) && !(exists j :: 0 <= j && j <= rangeindex && items[j] == x)
+//@     invariant N(set) <= old(N(set)) && N(set) >= old(N(set)) - rangeindex - 1
+//@     invariant len(items) == 1 && rangeindex == 0 ==> (!old(Mem(set, items[0])) ==> K(set) == old(K(set)))
+//@       && (old(Mem(set, items[0])) ==> K(set) == old(K(set))[:old(set.rank[items[0]])] ++ old(K(set))[old(set.rank[items[0]])+1:])
+//@     decreases len(items) - rangeindex
+
+//@ func Set.Contains
+//@   requires Inv(set)
+//@   modifies nothing
+//@   ensures [C04 C17 C18] result == (forall j :: 0 <= j && j < len(items) ==> Mem(set, items[j]))
+//@   loop 1:
+//@     invariant 0 - 1 <= rangeindex && rangeindex < len(items) && (len(items) == 0 ==> rangeindex == 0 - 1)
+//@     invariant forall j :: 0 <= j && j <= rangeindex ==> Mem(set, items[j])
+//@     decreases len(items) - rangeindex
+
+//@ func Set.Empty
+//@   requires Inv(set)
+//@   modifies nothing
+//@   ensures [C15 C17 C18] result == (N(set) == 0)
+
+//@ func Set.Size
+//@   requires Inv(set)
+//@   modifies nothing
+//@   ensures [C04 C15 C17 C18] result == N(set) && result == len(set.table) && result >= 0
+
+//@ func Set.Clear
+//@   requires Inv(set)
+//@   modifies set.table, set.ordering.first, set.ordering.last, set.ordering.size
+//@   ensures [C04 C09 C15 C17] Inv(set) && set.ordering == old(set.ordering) && fresh(set.table) && N(set) == 0 && (forall x like keyof(set.table) :: !Mem(set, x))
+
+//@ func Set.Values
+//@   requires Inv(set)
+//@   modifies nothing
+//@   ensures [C04 C09 C15 C16 C17 C18] fresh(arr(result)) && seq(result) == K(set)
+//@   loop 1:
+//@     invariant ItInv(it) && fresh(it) && it.iterator.list == set.ordering && len(values) == N(set) && fresh(arr(values))
+//@     invariant forall j :: 0 <= j && j <= it.iterator.index && j < N(set) ==> values[j] == K(set)[j]
+//@     decreases N(set) - it.iterator.index
+
+// ---- set algebra (C13) ----
+
+//@ func Set.Intersection
+//@   requires Inv(set) && Inv(another)
+//@   modifies nothing
+//@   ensures [C13 C17 C18] fresh(result) && Inv(result) && fresh(result.table) && fresh(result.ordering)
+//@   ensures [C13] forall x like keyof(set.table) :: Mem(result, x) <==> Mem(set, x) && Mem(another, x)
+//@   loop 1:
+//@     invariant fresh(result) && Inv(result) && fresh(result.table) && fresh(result.ordering)
+//@     invariant forall x like keyof(set.table) :: Mem(result, x) <==> visited1[x] && Mem(set, x) && Mem(another, x)
+//@     decreases len(set.table) - nvisited1
+//@   loop 2:
+//@     invariant fresh(result) && Inv(result) && fresh(result.table) && fresh(result.ordering)
+//@     invariant forall x like keyof(set.table) :: Mem(result, x) <==> visited2[x] && Mem(set, x) && Mem(another, x)
+//@     decreases len(another.table) - nvisited2
+
+//@ func Set.Union
+//@   requires Inv(set) && Inv(another)
+//@   modifies nothing
+//@   ensures [C13 C17 C18] fresh(result) && Inv(result) && fresh(result.table) && fresh(result.ordering)
+//@   ensures [C13] forall x like keyof(set.table) :: Mem(result, x) <==> Mem(set, x) || Mem(another, x)
+//@   loop 1:
+//@     invariant fresh(result) && Inv(result) && fresh(result.table) && fresh(result.ordering)
+//@     invariant forall x like keyof(set.table) :: Mem(result, x) <==> visited1[x] && Mem(set, x)
+//@     decreases len(set.table) - nvisited1
+//@   loop 2:
+//@     invariant fresh(result) && Inv(result) && fresh(result.table) && fresh(result.ordering)
+//@     invariant forall x like keyof(set.table) :: Mem(result, x) <==> Mem(set, x) || (visited2[x] && Mem(another, x))
+//@     decreases len(another.table) - nvisited2
+
+//@ func Set.Difference
+//@   requires Inv(set) && Inv(another)
+//@   modifies nothing
+//@   ensures [C13 C17 C18] fresh(result) && Inv(result) && fresh(result.table) && fresh(result.ordering)
+//@   ensures [C13] forall x like keyof(set.table) :: Mem(result, x) <==> Mem(set, x) && !Mem(another, x)
+//@   loop 1:
+//@     invariant fresh(result) && Inv(result) && fresh(result.table) && fresh(result.ordering)
+//@     invariant forall x like keyof(set.table) :: Mem(result, x) <==> visited1[x] && Mem(set, x) && !Mem(another, x)
+//@     decreases len(set.table) - nvisited1
+
+// ---- iterator: a cursor over positions -1..n of doublylinkedlist.Seq(list) (C08) ----
+
+//@ pred ItInv(it) := it != nil && it.iterator.list != nil && doublylinkedlist.Inv(it.iterator.list) && 0 - 1 <= it.iterator.index && it.iterator.index <= len(doublylinkedlist.Seq(it.iterator.list)) && (0 <= it.iterator.index && it.iterator.index < len(doublylinkedlist.Seq(it.iterator.list)) ==> it.iterator.element == it.iterator.list.nodes[it.iterator.index])
+
+//@ func Set.Iterator
+//@   requires Inv(set)
+//@   modifies nothing
+//@   ensures [C08 C17 C18] result.iterator.list == set.ordering && result.iterator.index == 0 - 1 && result.iterator.element == nil
+
+//@ func Iterator.Next
+//@   requires ItInv(iterator)
+//@   modifies iterator.iterator.index, iterator.iterator.element
+//@   ensures [C08 C17] ItInv(iterator) && iterator.iterator.index == min(old(iterator.iterator.index) + 1, len(doublylinkedlist.Seq(iterator.iterator.list)))
+//@   ensures [C08] result == (0 <= iterator.iterator.index && iterator.iterator.index < len(doublylinkedlist.Seq(iterator.iterator.list)))
+
+//@ func Iterator.Value
+//@   requires ItInv(iterator) && 0 <= iterator.iterator.index && iterator.iterator.index < len(doublylinkedlist.Seq(iterator.iterator.list))
+//@   modifies nothing
+//@   ensures [C08 C17 C18] result == doublylinkedlist.Seq(iterator.iterator.list)[iterator.iterator.index]
+
+//@ func Iterator.Index
+//@   requires ItInv(iterator)
+//@   modifies nothing
+//@   ensures [C08 C17 C18] result == iterator.iterator.index
+
+//@ func Iterator.Begin
+//@   requires ItInv(iterator)
+//@   modifies iterator.iterator.index, iterator.iterator.element
+//@   ensures [C08 C17] ItInv(iterator) && iterator.iterator.index == 0 - 1
+
+//@ func Iterator.First
+//@   requires ItInv(iterator)
+//@   modifies iterator.iterator.index, iterator.iterator.element
+//@   ensures [C08 C17] ItInv(iterator) && iterator.iterator.index == 0 && result == (len(doublylinkedlist.Seq(iterator.iterator.list)) > 0)
+
+//@ func Iterator.NextTo
+//@   requires ItInv(iterator) && f != nil
+//@   modifies iterator.iterator.index, iterator.iterator.element
+//@   ensures [C08 C17] ItInv(iterator)
+//@   ensures [C08] found: result ==> old(iterator.iterator.index) < iterator.iterator.index && iterator.iterator.index < len(doublylinkedlist.Seq(iterator.iterator.list)) && f(iterator.iterator.index, doublylinkedlist.Seq(iterator.iterator.list)[iterator.iterator.index])
+//@     && (forall j :: old(iterator.iterator.index) < j && j < iterator.iterator.index ==> !f(j, doublylinkedlist.Seq(iterator.iterator.list)[j]))
+//@   ensures [C08] notfound: !result ==> iterator.iterator.index == len(doublylinkedlist.Seq(iterator.iterator.list)) && (forall j :: old(iterator.iterator.index) < j && j < len(doublylinkedlist.Seq(iterator.iterator.list)) ==> !f(j, doublylinkedlist.Seq(iterator.iterator.list)[j]))
+//@   loop 1:
+//@     invariant ItInv(iterator) && old(iterator.iterator.index) <= iterator.iterator.index
+//@     invariant forall j :: old(iterator.iterator.index) < j && j <= iterator.iterator.index && j < len(doublylinkedlist.Seq(iterator.iterator.list)) ==> !f(j, doublylinkedlist.Seq(iterator.iterator.list)[j])
+//@     decreases len(doublylinkedlist.Seq(iterator.iterator.list)) - iterator.iterator.index
+
+//@ func Iterator.Prev
+//@   requires ItInv(iterator)
+//@   modifies iterator.iterator.index, iterator.iterator.element
+//@   ensures [C08 C17] ItInv(iterator) && iterator.iterator.index == max(old(iterator.iterator.index) - 1, 0 - 1)
+//@   ensures [C08] result == (0 <= iterator.iterator.index && iterator.iterator.index < len(doublylinkedlist.Seq(iterator.iterator.list)))
+
+//@ func Iterator.End
+//@   requires ItInv(iterator)
+//@   modifies iterator.iterator.index, iterator.iterator.element
+//@   ensures [C08 C17] ItInv(iterator) && iterator.iterator.index == len(doublylinkedlist.Seq(iterator.iterator.list))
+
+//@ func Iterator.Last
+//@   requires ItInv(iterator)
+//@   modifies iterator.iterator.index, iterator.iterator.element
+//@   ensures [C08 C17] ItInv(iterator) && iterator.iterator.index == len(doublylinkedlist.Seq(iterator.iterator.list)) - 1 && result == (len(doublylinkedlist.Seq(iterator.iterator.list)) > 0)
+
+//@ func Iterator.PrevTo
+//@   requires ItInv(iterator) && f != nil
+//@   modifies iterator.iterator.index, iterator.iterator.element
+//@   ensures [C08 C17] ItInv(iterator)
+//@   ensures [C08] found: result ==> 0 <= iterator.iterator.index && iterator.iterator.index < old(iterator.iterator.index) && f(iterator.iterator.index, doublylinkedlist.Seq(iterator.iterator.list)[iterator.iterator.index])
+//@     && (forall j :: iterator.iterator.index < j && j < old(iterator.iterator.index) ==> !f(j, doublylinkedlist.Seq(iterator.iterator.list)[j]))
+//@   ensures [C08] notfound: !result ==> iterator.iterator.index == 0 - 1 && (forall j :: 0 <= j && j < old(iterator.iterator.index) ==> !f(j, doublylinkedlist.Seq(iterator.iterator.list)[j]))
+//@   loop 1:
+//@     invariant ItInv(iterator) && iterator.iterator.index <= old(iterator.iterator.index)
+//@     invariant forall j :: iterator.iterator.index <= j && j < old(iterator.iterator.index) && 0 <= j ==> !f(j, doublylinkedlist.Seq(iterator.iterator.list)[j])
+//@     decreases iterator.iterator.index + 1
+
